@@ -122,7 +122,13 @@ class WsPeer:
         now = self.loop.time()
         if due > now:
             self.ctx.fault("recv_waited")
-            await asyncio.sleep(due - now)
+            try:
+                await asyncio.sleep(due - now)
+            except asyncio.CancelledError:
+                # a receive() cancelled while it waits has not taken the message: the next call gets it
+                if self.claimed == i + 1:
+                    self.claimed = i
+                raise
         msg = dict(self.script[j])
         self.delivered_idx.append(j)
         if msg["type"] == T_DISCONNECT:
